@@ -67,32 +67,20 @@ theorem parseInt64_some {ip : List Char} {i : Int} (h : parseInt64 ip = some i) 
   · simp [hd] at h
 
 
-/-- the literal shape `ParseDecimal` accepts: optional sign (`-`, and also `+`), digits, `.`, one to four digits -/
+/-- the documented literal shape `-?[0-9]+\.[0-9]{1,4}`: optional `-`, digits, `.`, one to four digits -/
 def DecimalSyntax (cs sg I F : List Char) : Prop :=
-  (sg = [] ∨ sg = ['-'] ∨ sg = ['+']) ∧ allDigits I = true ∧ allDigits F = true ∧ F.length ≤ 4 ∧ cs = sg ++ (I ++ '.' :: F)
+  (sg = [] ∨ sg = ['-']) ∧ allDigits I = true ∧ allDigits F = true ∧ F.length ≤ 4 ∧ cs = sg ++ (I ++ '.' :: F)
 
 /-- the number such a literal denotes, in ten-thousandths -/
 def decimalValue (sg I F : List Char) : Int :=
   (if sg = ['-'] then -1 else 1) * ((digitsVal I : Int) * 10000 + ((digitsVal F * 10 ^ (4 - F.length) : Nat) : Int))
 
-theorem parseDecimalL_plus (I F : List Char) (hI : allDigits I = true) (hF : allDigits F = true)
-    (hIv : (digitsVal I : Int) ≤ maxI64) (hFl : F.length ≤ 4) :
-    parseDecimalL ('+' :: (I ++ '.' :: F)) =
-      newDecimal (digitsVal I) ((digitsVal F * 10 ^ (4 - F.length) : Nat) : Int) := by
-  have hnd : ∀ x ∈ I, x ≠ '.' := fun x hx => (isDig_ne (allDigits_all hI x hx)).1
-  have hF' := parseUintMax_of F 65535 hF (by have := digitsVal_le_9999 F hF hFl; omega)
-  have hlen : ¬ (F.length > 4) := by omega
-  have hs := splitAtChar_append '.' ('+' :: I) F (by
-    intro x hx; simp at hx; rcases hx with rfl | hx
-    · decide
-    · exact hnd x hx)
-  have hp : parseInt64 ('+' :: I) = some (digitsVal I : Int) := by
-    have : minI64 ≤ (digitsVal I : Int) := by unfold minI64; omega
-    simp [parseInt64, signSplit, hI, this, hIv]
+/-- a leading `+` (which `strconv.ParseInt` would accept) is rejected -/
+theorem parseDecimalL_plus (rest : List Char) : parseDecimalL ('+' :: rest) = .error .extDecimal := by
   unfold parseDecimalL
-  rw [show '+' :: (I ++ '.' :: F) = ('+' :: I) ++ '.' :: F from rfl, hs]
-  simp only [hp, hF', hlen, if_false]
-  simp
+  split
+  · rfl
+  · simp
 
 theorem parseDecimalL_ok_iff (cs : List Char) (d : Int) :
     parseDecimalL cs = .ok d ↔ ∃ sg I F, DecimalSyntax cs sg I F ∧ d = decimalValue sg I F ∧ InI64 d := by
@@ -105,48 +93,57 @@ theorem parseDecimalL_ok_iff (cs : List Char) (d : Int) :
     · rename_i ip fp hsp
       split at h
       · cases h
-      · rename_i i hi
+      · rename_i hplus
         split at h
         · cases h
-        · rename_i f hf
-          obtain ⟨hd, rfl, _⟩ := parseUintMax_some hf
+        · rename_i i hi
           split at h
           · cases h
-          · rename_i hl
-            obtain ⟨sg, I, hsg, hip, hIdig, hival, hhead⟩ := parseInt64_some hi
-            have hcs := splitAtChar_some hsp
-            have hp := frac_scaled_le fp hd (by omega)
-            refine ⟨sg, I, fp, ⟨hsg, hIdig, hd, by omega, by rw [hcs, hip, List.append_assoc]⟩, ?_, hI64⟩
-            -- the head of the whole string is the head of the integer part
-            have hne : ip ≠ [] := by
-              obtain ⟨c, r, e, _, _⟩ := allDigits_cons hIdig
-              rw [hip, e]; simp
-            have hh : cs.head? = ip.head? := by
-              rw [hcs]; cases ip with
-              | nil => exact absurd rfl hne
-              | cons x xs => rfl
-            simp only at h
-            unfold decimalValue
-            by_cases hm : sg = ['-']
-            · have : (cs.head? == some '-') = true := by rw [hh]; simpa using hhead.2 hm
-              rw [this] at h
-              simp only [if_true] at h
-              have := (newDecimal_ok (by omega) h).1
-              rw [this, hival]; simp only [hm, if_true]; omega
-            · have : (cs.head? == some '-') = false := by
-                rw [hh]
-                have : ¬ ip.head? = some '-' := fun e => hm (hhead.1 e)
-                simpa using this
-              rw [this] at h
-              simp only [Bool.false_eq_true, if_false] at h
-              have := (newDecimal_ok (by omega) h).1
-              rw [this, hival]; simp only [hm, if_false]; omega
+          · rename_i f hf
+            obtain ⟨hd, rfl, _⟩ := parseUintMax_some hf
+            split at h
+            · cases h
+            · rename_i hl
+              obtain ⟨sg, I, hsg, hip, hIdig, hival, hhead⟩ := parseInt64_some hi
+              have hcs := splitAtChar_some hsp
+              have hp := frac_scaled_le fp hd (by omega)
+              -- the head of the whole string is the head of the integer part
+              have hne : ip ≠ [] := by
+                obtain ⟨c, r, e, _, _⟩ := allDigits_cons hIdig
+                rw [hip, e]; simp
+              have hh : cs.head? = ip.head? := by
+                rw [hcs]; cases ip with
+                | nil => exact absurd rfl hne
+                | cons x xs => rfl
+              -- the sign `+` was rejected before `strconv.ParseInt` saw it
+              have hsg' : sg = [] ∨ sg = ['-'] := by
+                rcases hsg with e | e | e
+                · exact Or.inl e
+                · exact Or.inr e
+                · exfalso; apply hplus; rw [hh, hip, e]; rfl
+              refine ⟨sg, I, fp, ⟨hsg', hIdig, hd, by omega, by rw [hcs, hip, List.append_assoc]⟩, ?_, hI64⟩
+              simp only at h
+              unfold decimalValue
+              by_cases hm : sg = ['-']
+              · have : (cs.head? == some '-') = true := by rw [hh]; simpa using hhead.2 hm
+                rw [this] at h
+                simp only [if_true] at h
+                have := (newDecimal_ok (by omega) h).1
+                rw [this, hival]; simp only [hm, if_true]; omega
+              · have : (cs.head? == some '-') = false := by
+                  rw [hh]
+                  have : ¬ ip.head? = some '-' := fun e => hm (hhead.1 e)
+                  simpa using this
+                rw [this] at h
+                simp only [Bool.false_eq_true, if_false] at h
+                have := (newDecimal_ok (by omega) h).1
+                rw [this, hival]; simp only [hm, if_false]; omega
   · rintro ⟨sg, I, F, ⟨hsg, hI, hF, hl, rfl⟩, hd, hI64⟩
     have hp := frac_scaled_le F hF hl
     unfold decimalValue at hd
     have hI64' := hI64
     unfold InI64 minI64 maxI64 at hI64'
-    rcases hsg with rfl | rfl | rfl
+    rcases hsg with rfl | rfl
     · simp only [List.nil_append] at *
       have hne : ¬ (([] : List Char) = ['-']) := by simp
       simp only [hne, if_false] at hd
@@ -159,10 +156,5 @@ theorem parseDecimalL_ok_iff (cs : List Char) (d : Int) :
       simp only [if_true] at this
       rw [this, newDecimal_exact _ _ (by omega) (by omega)]
       rw [show -(digitsVal I : Int) * 10000 + -((digitsVal F * 10 ^ (4 - F.length) : Nat) : Int) = d by omega, if_pos hI64]
-    · have hne : ¬ ((['+'] : List Char) = ['-']) := by decide
-      simp only [hne, if_false] at hd
-      rw [show ['+'] ++ (I ++ '.' :: F) = '+' :: (I ++ '.' :: F) from rfl,
-        parseDecimalL_plus I F hI hF (by unfold maxI64; omega) hl, newDecimal_exact _ _ (by omega) (by omega)]
-      rw [show (digitsVal I : Int) * 10000 + ((digitsVal F * 10 ^ (4 - F.length) : Nat) : Int) = d by omega, if_pos hI64]
 
 end CedarGo.Scalars
